@@ -1,0 +1,80 @@
+//go:build verif
+
+package flate
+
+// Contracts for the gocv verifier (/verif/DESIGN.md). Comments only; compiled only with the build tag "verif".
+
+//@ implementers io.Reader: *bufio.Reader, other
+
+// ---------------------------------------------------------------------------
+// inflate state
+// ---------------------------------------------------------------------------
+
+//@ pure inflFresh(s *inflate) bool = s.input == nil && s.bits == 0 && s.bitsLen == 0 && s.phase == 0 && s.bfinal == 0 && s.litBlockLength == 0 && s.writeOverflowLits == 0 && s.writeOverflowLen == 0 && s.copyOverflowLength == 0 && s.copyOverflowDistance == 0 && s.headerBuffered == 0 && s.roffset == 0
+
+//@ func (*inflate).reset
+//@   modifies s.input, s.bits, s.bitsLen, s.phase, s.bfinal, s.litBlockLength, s.writeOverflowLits, s.writeOverflowLen, s.copyOverflowLength, s.copyOverflowDistance, s.headerBuffered, s.roffset
+//@   ensures[C13 fresh] inflFresh(s)
+
+//@ pure isSentinel(e error) bool = e == errEndInput || e == errOutputOverflow || e == errInvalidBlock || e == errInvalidSymbol || e == errInvalidLookBack
+//@ pure isInvalid(e error) bool = e == errInvalidBlock || e == errInvalidSymbol || e == errInvalidLookBack
+
+// ---------------------------------------------------------------------------
+// decompressor
+// ---------------------------------------------------------------------------
+
+// rdOK: representation invariant of the Reader between public operations.
+//@ pure rdBasic(f *decompressor) bool = 0 <= f.readPos && f.readPos <= f.writePos && f.writePos <= 65797 && f.rBuf != nil && brOK(f.rBuf) && 0 <= f.state.bitsLen && f.state.bitsLen <= 64 && 0 <= f.peekSize
+//@ pure inputOK(f *decompressor) bool = (f.state.input != nil ==> len(f.state.input) + int(f.state.bitsLen/8) <= f.peekSize && f.peekSize <= f.rBuf.buffered) && (f.state.input == nil ==> int(f.state.bitsLen/8) <= f.rBuf.buffered)
+//@ pure errClass(e error) bool = e == nil || e == io.EOF || e == io.ErrUnexpectedEOF || iscorrupt(e) || (e == peekErr && e != bufio.ErrBufferFull)
+//@ pure rdOK(f *decompressor) bool = rdBasic(f) && (f.err == nil ==> inputOK(f))
+//@ pure rdFresh(f *decompressor) bool = rdOK(f) && f.readPos == 0 && f.writePos == 0 && f.err == nil && !f.eof && f.needInput && f.peekSize == 0 && inflFresh(&f.state)
+
+//@ func NewReader
+//@   requires typeis(r, *bufio.Reader) ==> brOK(r.(*bufio.Reader))
+//@   modifies nothing
+//@   ensures[C13 fresh-state] typeis(result, *decompressor) && rdFresh(result.(*decompressor))
+//@   ensures[C05 src-direct] typeis(r, *bufio.Reader) ==> result.(*decompressor).rBuf == r.(*bufio.Reader)
+
+//@ func (*decompressor).Reset
+//@   params r, under, dict -> err
+//@   requires r.rBuf != nil ==> brOK(r.rBuf)
+//@   requires typeis(under, *bufio.Reader) ==> brOK(under.(*bufio.Reader))
+//@   modifies *r, *r.rBuf
+//@   ensures[C13 fresh] rdFresh(r) && err == nil
+//@   ensures[C05 C13 src-direct] typeis(under, *bufio.Reader) ==> r.rBuf == under.(*bufio.Reader)
+
+//@ func (*decompressor).decomperss
+//@   trusted "not yet verified: block decoding below this call (readHeader, decodeLiteralBlock, decodeHuffman, table builders)"
+//@   requires rdOK(f) && f.state.input != nil && f.writePos == f.readPos && f.readPos < 65536
+//@   modifies f.state, f.writePos, f.historyBuffer
+//@   ensures f.readPos <= f.writePos && f.writePos <= 65797
+//@   ensures 0 <= f.state.bitsLen && f.state.bitsLen <= 64 && f.state.input != nil && len(f.state.input) <= old(len(f.state.input)) && 8*len(f.state.input) + int(f.state.bitsLen) <= 8*old(len(f.state.input)) + old(int(f.state.bitsLen))
+//@   ensures err == nil || isSentinel(err)
+//@   ensures err == nil ==> f.state.phase == phaseStreamEnd
+//@   ensures err == errEndInput ==> len(f.state.input) == 0
+//@   ensures f.state.phase != phaseFinish
+
+//@ func (*decompressor).step
+//@   requires rdOK(f) && f.writePos == f.readPos && f.err == nil
+//@   modifies f.state, f.writePos, f.readPos, f.historyBuffer, f.peekSize, f.eof, f.needInput, *f.rBuf, extReads, peekErr
+//@   ensures[C03 C04 inv] rdBasic(f) && f.readPos <= f.writePos && (err == nil ==> inputOK(f))
+//@   ensures[C11 no-demand] !old(f.needInput) && old(f.state.input) == nil && int(old(f.state.bitsLen)/8) <= old(f.rBuf.buffered) ==> extReads == old(extReads)
+//@   ensures[C03 classify] errClass(err)
+//@   ensures[C03 eof-only-final] err == io.EOF ==> f.state.phase == phaseFinish && f.writePos == f.readPos
+//@   ensures[C15 src-err] old(f.state.input) == nil && old(f.state.phase) != phaseFinish && old(f.rBuf.buffered) < int(old(f.state.bitsLen)/8) + (old(f.needInput) ? 1 : 0) && peekErr != nil && peekErr != io.EOF && peekErr != bufio.ErrBufferFull ==> err == peekErr
+//@   ensures[C03 err-no-data] err == io.ErrUnexpectedEOF || iscorrupt(err) || err == nil || f.writePos == f.readPos || err == io.EOF
+
+//@ func (*decompressor).Read
+//@   requires rdOK(f)
+//@   modifies b[*], f.err, f.state, f.writePos, f.readPos, f.historyBuffer, f.peekSize, f.eof, f.needInput, *f.rBuf, extReads, peekErr
+//@   ensures[C03 C04 inv] rdOK(f)
+//@   ensures[C04 deliver] 0 <= n && n <= len(b) && n <= old(f.writePos - f.readPos) || old(f.writePos) == old(f.readPos)
+//@   ensures[C04 deliver-pending] old(f.writePos) > old(f.readPos) ==> n == (len(b) < old(f.writePos - f.readPos) ? len(b) : old(f.writePos - f.readPos)) && f.readPos == old(f.readPos) + n && same(f.writePos) && same(f.historyBuffer) && extReads == old(extReads)
+//@   ensures[C03 C15 sticky] old(f.err) != nil && old(f.writePos) == old(f.readPos) ==> n == 0 && err == old(f.err) && f.err == old(f.err) && extReads == old(extReads)
+//@   ensures[C03 C15 err-recorded] err != nil ==> f.err == err && f.writePos == f.readPos
+//@   ensures[C03 classify] errClass(err) || err == old(f.err)
+//@   loop 1 invariant rdBasic(f) && (f.err == nil ==> inputOK(f)) && n == 0
+//@   loop 1 invariant f.err == nil || f.err == old(f.err) || (errClass(f.err) && f.writePos > f.readPos)
+//@   loop 1 invariant old(f.err) != nil && old(f.writePos) == old(f.readPos) ==> same(f.err) && same(f.writePos) && same(f.readPos) && extReads == old(extReads)
+//@   loop 1 invariant old(f.writePos) > old(f.readPos) ==> same(f.writePos) && same(f.readPos) && same(f.historyBuffer) && extReads == old(extReads) && same(f.err)
